@@ -299,7 +299,8 @@ LEMMAS = """
 /// C01 "without revisiting a vertex": a chain of parent links strictly decreases the label, so it never returns to its start
 pub open spec fn parent_chain(t: Map<VertexId, SearchTreeBranch>, c: Seq<VertexId>) -> bool {
     &&& c.len() >= 1
-    &&& forall|i: int| 0 <= i < c.len() - 1 ==> t.contains_key(#[trigger] c[i]) && t[c[i]].terminal_vertex == c[i + 1]
+    // (the trigger is the whole contains_key term: with `c[i]` alone as trigger the successor term c[i + 1] would be a matching loop)
+    &&& forall|i: int| 0 <= i < c.len() - 1 ==> #[trigger] t.contains_key(c[i]) && t[c[i]].terminal_vertex == c[i + 1]
 }
 pub proof fn lemma_no_revisit(source: VertexId, t: Map<VertexId, SearchTreeBranch>, labels: Map<VertexId, Cost>, c: Seq<VertexId>)
     requires dom_ok(source, t, labels), pot_ok(source, t, labels), parent_chain(t, c), c.len() >= 2
@@ -311,7 +312,7 @@ pub proof fn lemma_no_revisit(source: VertexId, t: Map<VertexId, SearchTreeBranc
         assert(t.contains_key(c[0]));
     } else {
         let c2 = c.drop_last();
-        assert(parent_chain(t, c2)) by { assert forall|i: int| 0 <= i < c2.len() - 1 implies t.contains_key(#[trigger] c2[i]) && t[c2[i]].terminal_vertex == c2[i + 1] by { assert(c2[i] == c[i]); assert(c2[i+1] == c[i+1]); } }
+        assert(parent_chain(t, c2)) by { assert forall|i: int| 0 <= i < c2.len() - 1 implies #[trigger] t.contains_key(c2[i]) && t[c2[i]].terminal_vertex == c2[i + 1] by { assert(c2[i] == c[i]); assert(c2[i+1] == c[i+1]); assert(t.contains_key(c[i])); } }
         lemma_no_revisit(source, t, labels, c2);
         let n = c.len() as int;
         assert(t.contains_key(c[n - 2]));
@@ -321,7 +322,7 @@ pub proof fn lemma_no_revisit(source: VertexId, t: Map<VertexId, SearchTreeBranc
     // pairwise distinctness: every sub-chain also strictly decreases
     assert forall|i: int, j: int| 0 <= i < j < c.len() implies c[i] != c[j] by {
         let sub = c.subrange(i, j + 1);
-        assert(parent_chain(t, sub)) by { assert forall|m: int| 0 <= m < sub.len() - 1 implies t.contains_key(#[trigger] sub[m]) && t[sub[m]].terminal_vertex == sub[m + 1] by { assert(sub[m] == c[i + m]); assert(sub[m + 1] == c[i + m + 1]); } }
+        assert(parent_chain(t, sub)) by { assert forall|m: int| 0 <= m < sub.len() - 1 implies #[trigger] t.contains_key(sub[m]) && t[sub[m]].terminal_vertex == sub[m + 1] by { assert(sub[m] == c[i + m]); assert(sub[m + 1] == c[i + m + 1]); assert(t.contains_key(c[i + m])); } }
         if sub.len() < c.len() { lemma_no_revisit(source, t, labels, sub); assert(sub[0] == c[i]); assert(sub.last() == c[j]); }
         else { assert(i == 0 && j == c.len() - 1); }
     }
